@@ -96,6 +96,24 @@ pub fn run(sc: &Value) -> Value {
             if !two { let b = mk1(&sc["b"], None); let a = mk1(&sc["a"], if share { Some(&b) } else { None }); out1(&ops!(op, a, b, ra, rb)) }
             else { let b = mk2(&sc["b"], None); let a = mk2(&sc["a"], if share { Some(&b) } else { None }); out2(&ops!(op, a, b, ra, rb)) }
         }
+        "dual_grad" => {
+            use rateslib::dual::{Gradient1, Gradient2};
+            let req = svec(&sc["req"]);
+            match (two, sc["which"].as_str().unwrap()) {
+                (false, "gradient1") => json!({"g1": mk1(&sc["a"], None).gradient1(req).to_vec()}),
+                (true, "gradient1") => json!({"g1": mk2(&sc["a"], None).gradient1(req).to_vec()}),
+                (true, "gradient2") => json!({"g2": mk2(&sc["a"], None).gradient2(req).iter().cloned().collect::<Vec<f64>>()}),
+                (true, "manifold") => { let g = mk2(&sc["a"], None).gradient1_manifold(req); json!({"manifold": g.iter().map(|d| out2(d)).collect::<Vec<Value>>()}) }
+                (true, "product_rule") => {
+                    let a = mk2(&sc["a"], None); let b = mk2(&sc["b"], None);
+                    let (ma, mb) = (a.gradient1_manifold(req.clone()), b.gradient1_manifold(req.clone()));
+                    let ab = &a * &b;
+                    let t: Vec<Value> = ma.iter().zip(mb.iter()).map(|(x, y)| out2(&(x * &b + &a * y))).collect();
+                    json!({"terms": t, "ab_g1": ab.gradient1(req.clone()).to_vec(), "ab_g2": ab.gradient2(req).iter().cloned().collect::<Vec<f64>>()})
+                }
+                _ => json!({"error": "dual_grad variant"}),
+            }
+        }
         "dual_eq" => {
             if !two { let a = mk1(&sc["a"], None); let b = mk1(&sc["b"], if share { Some(&a) } else { None }); json!({"eq": a == b}) }
             else { let a = mk2(&sc["a"], None); let b = mk2(&sc["b"], if share { Some(&a) } else { None }); json!({"eq": a == b}) }
